@@ -71,7 +71,10 @@ def run(ck, prop, tier, ex, ps):
         ck.violation("harness_build_reg", log, "harness h1_reg no longer compiles against the current tree (correspondence of the registration / failure-counter protocols broken): " + log[-300:], no_input=True)
         return None
     proto = PROTO[prop]
-    nsched = 4000 if tier == "quick" else 60000
+    ck.assumptions.append("reg stream (harness/h1_reg.cpp, vshim_mt.h): C++11 atomics rendered by the view semantics of the N-thread shim (store histories in "
+                          "execution order, stale loads bounded by coherence and happens-before, release/acquire view transfer, read-modify-writes read the newest store); "
+                          "one scheduler step = one atomic access plus the plain code up to the next one; the context list only grows here (reclamation is the backend model's subject)")
+    nsched = 4000 if tier == "quick" else 40000
     pline = params_line(ex)
     outs = []
     # corpus first: corpus/<prop>/reg_*.txt are replay files
@@ -102,20 +105,31 @@ def run(ck, prop, tier, ex, ps):
     if ps["broken"] and not oracle and abort is None:
         # the proof side no longer checks and the usual run found nothing: search harder before giving up
         searched_harder = True
-        for sd in range(ck.seed + 1, ck.seed + 6):
-            rc, out = run_harness(hbin, ["gen", sd * 7919, 40000 if proto == 1 else 0, 40000 if proto == 2 else 0])
+        for sd in range(ck.seed + 1, ck.seed + 4):
+            rc, out = run_harness(hbin, ["gen", sd * 7919, 20000 if proto == 1 else 0, 20000 if proto == 2 else 0])
             c2, o2 = split_cases(out)
             hits = [(cid, l) for cid in o2 for l in c2[cid] if l.startswith("ORACLE")]
             if hits or rc not in (0, 3):
                 cases.update(c2)
+                order += [c for c in o2 if c not in order]
+                allout.append(out)
                 oracle += hits
                 if rc not in (0, 3):
                     abort = (rc, out)
                 break
-    rcd, dout = vlib.driver(["reg", "trace"], stdin_data=(pline + "\n" + text).encode(), timeout=900)
-    mm = [l for l in dout.split("\n") if l.startswith(("MISMATCH", "BAD-LINE", "MODEL-LOST", "MODEL-RACE"))]
-    done = [l for l in dout.split("\n") if l.startswith("DONE")]
-    tr = [dict(x.split("=") for x in l.split()[2:]) for l in dout.split("\n") if l.startswith("TRACE ")]
+    # the compiled model replays every step (one driver run per harness run keeps the memory bounded in the thorough tier)
+    rcd, mm, done, tr, dtail = 0, [], [], [], ""
+    for out in allout:
+        rc1, dout = vlib.driver(["reg", "trace"], stdin_data=(pline + "\n" + out).encode(), timeout=1800)
+        rcd = rcd or rc1
+        dl = dout.split("\n")
+        mm += [l for l in dl if l.startswith(("MISMATCH", "BAD-LINE", "MODEL-LOST", "MODEL-RACE"))]
+        d1 = [l for l in dl if l.startswith("DONE")]
+        if not d1:
+            rcd = rcd or 1
+            dtail = dout[-300:]
+        done += d1
+        tr += [dict(x.split("=") for x in l.split()[2:]) for l in dl if l.startswith("TRACE ")]
     seen = dict(x.split("=") for l in text.split("\n") if l.startswith("ORDERS-SEEN") for x in l.split()[1:])
     stats = [l for l in text.split("\n") if l.startswith("STATS")]
     st = {}
@@ -127,7 +141,7 @@ def run(ck, prop, tier, ex, ps):
             "stale_loads": sum(int(t.get("stale", 0)) for t in tr), "lock_spins": sum(int(t.get("spins", 0)) for t in tr),
             "cache_rebuilds": sum(int(t.get("rebuilds", 0)) for t in tr), "notifier_reports": sum(int(t.get("reports", 0)) for t in tr),
             "harness_stats": st, "orders_seen": seen, "mismatching_lines": len([l for l in mm if l.startswith(("MISMATCH", "BAD-LINE"))]),
-            "oracle_hits": len(oracle), "driver_done": done[:1], "params": pline, "searched_harder": searched_harder,
+            "oracle_hits": len(oracle), "driver_done": done[:3], "params": pline, "searched_harder": searched_harder,
             "samples": [cases[c][:6] for c in order[:1] + order[-1:]]}
     what = ("a registered thread context is missing from the backend's cache after the registration returned and one more whole cache update (its statements are never read)"
             if proto == 1 else "the counts reported through the error notifier plus the residual counter do not add up to the number of increments (discarded statements)")
@@ -142,7 +156,7 @@ def run(ck, prop, tier, ex, ps):
         ck.violation("reg_abort", replay_content("harness aborted rc=%s (sanitizer / assertion in the real code)" % rc, c2[last]) if last else out[-2000:],
                      "the real code aborted under the atomic-shim scheduler (rc=%s) in schedule %s: %s" % (rc, last, out.strip().split("\n")[-1][:200]))
     elif mm or rcd != 0 or not done:
-        l = (mm or ["driver reg trace failed rc=%s: %s" % (rcd, dout[-300:])])[0]
+        l = (mm or ["driver reg trace failed rc=%s: %s" % (rcd, dtail)])[0]
         m = re.search(r"case=(\S+)", l)
         cid = m.group(1) if m else None
         ck.violation("reg_correspondence", replay_content("correspondence stream `reg` disagrees: " + l, cases[cid]) if cid in cases else l + "\n",
